@@ -86,6 +86,10 @@ impl Property for C01 {
         };
         let real = run_real(&tc, &built.sigs, &spec, &RunOpts { max_next: next_budget(&t), fuel: fuel_for(t.facts.steps), ..Default::default() });
         if let Some((k, m)) = trace_diff(&t, &real, Projection::INPUTS_EXPECTED) {
+            if !k.starts_with("panic:") && !still_differs_with_real_call_indices(&built.prog, &built.sigs, &spec, &ri::RiOpts::default(), &real, Projection::INPUTS_EXPECTED) {
+                out.class("difference-caused-by-call-protocol-only");
+                return out;
+            }
             let key = if k.starts_with("panic:") { k } else { format!("c01:{k}") };
             out.fail(key, m);
         }
